@@ -19,6 +19,7 @@ type Simulator interface {
 	Enter(label string)
 	Exit()
 	Yield(label string)
+	YieldOn(label string, key interface{})
 	Order(n int, key func(i int) string) []int
 	NetDial() func(ctx context.Context, network, addr string) (net.Conn, error)
 }
@@ -81,6 +82,13 @@ func Exit() {
 func Yield(label string) {
 	if s := get(); s != nil {
 		s.Yield(label)
+	}
+}
+
+// YieldOn is Yield at a point that is about to use the given channel (or other shared object).
+func YieldOn(label string, key interface{}) {
+	if s := get(); s != nil {
+		s.YieldOn(label, key)
 	}
 }
 
